@@ -33,6 +33,8 @@ class FileSpec(object):
                 if sE is not None:
                     sE.events.append(('size', Val.sv(p))); outs.append((sE, ('val', I(z3.Length(sE.g['fs_data'][Val.sv(p)])))))
             return outs
+        if name in ('os.path.isfile', 'os.path.exists'):
+            return [(st, ('val', B(z3.And(Val.is_s(pos[0]), st.g['fs_dom'][Val.sv(pos[0])]))))]
         if name == 'builtins.open':
             p = pos[0]; mode = pos[1] if len(pos) > 1 else kw.get('mode', S('r'))
             md = z3.simplify(Val.sv(mode))
